@@ -186,3 +186,65 @@ func H_C11_Chunking() {
 	}
 	vCover("c11.chunk")
 }
+
+// vFillDelegate hands out, once, a single user broadcast that fills the offered budget to the byte. Its content is
+// k bytes of noise followed by zeros: natively k decides how well LZW does on it.
+type vFillDelegate struct {
+	vDelegateRec
+	k    int
+	used bool
+	size int
+}
+
+func (d *vFillDelegate) GetBroadcasts(overhead, limit int) [][]byte {
+	n := limit - overhead
+	if d.used || n <= 0 {
+		return nil
+	}
+	d.used = true
+	d.size = n
+	b := make([]byte, n)
+	k := d.k
+	if k > n {
+		k = n
+	}
+	copy(b, vNoise(k))
+	return [][]byte{b}
+}
+
+// C11 budget with compression on: a packet filled to the byte stays within the configured size whatever LZW makes
+// of its payload - much smaller, smaller by less than the compress{} wrapper costs, no smaller at all. (Compression
+// may only ever be used when the wrapped result is smaller than the plain message.) Engine: size-aware compression
+// model; natively the payload's compressibility is swept.
+func H_C11_CompressedBudget() {
+	vOpt("lzw-sizes", 1)
+	vUnwind(20000)
+	c := &vNetCfg{enc: vPick(3), crc: vPick(2) == 1, compress: true}
+	c.label = string(vBytes([]int{0, 3}[vPick(2)]))
+	if c.enc != 0 {
+		c.key = vBytes(16)
+	}
+	conf := vBaseConfig()
+	c.apply(conf)
+	conf.UDPBufferSize = 700
+	conf.GossipNodes = 1
+	f := vNewML(conf)
+	m := f.m
+	d := &vFillDelegate{k: vKnob(0, 700)}
+	conf.Delegate = d
+	f.vAddSelf(3, nil)
+	peer := f.vAddConcreteAlive(vPeerA, 2)
+	if c.crc {
+		peer.PMax = 5
+	} else {
+		peer.PMax = 2
+	}
+	m.gossip()
+	vAssert(len(f.tr.packets) == 1, "c11.cbudget.sent")
+	for _, pkt := range f.tr.packets {
+		vAssert(len(pkt) <= conf.UDPBufferSize, "c11.cbudget.packet-fits-udp-buffer")
+	}
+	vCover("c11.cbudget")
+}
+
+func init() { vRegister("H_C11_CompressedBudget", H_C11_CompressedBudget) }
